@@ -441,8 +441,15 @@ def h_sorter_insert(ctx, tmax=2 ** 36, frac=4):
             s_err.ghost["created"] += 1
             s_err.ghost["events"].append(("spill-error", "", ""))
             out.append((s_err, Enum(bv(1), {"Err": (1, [Opaque("error")])})))
+            ent0 = so.fields[f["entries"]]
+            if mach.feasible(s, z3.And(ent0.fields[1] == bv(0), ent0.fields[2] == bv(0))):
+                s_nop = s.fork()        # "nothing to spill": allowed by the contract only when the buffer is empty
+                s_nop.pc.append(z3.And(ent0.fields[1] == bv(0), ent0.fields[2] == bv(0)))
+                s_nop.ghost["events"].append(("spill", "", ""))
+                out.append((s_nop, Enum(bv(0), {"Ok": (0, [bv(0)])})))
             s_ok = s
             s_ok.ghost["created"] += 1
+            s_err.ghost["live_max"] = z3.If(z3.UGT(so.fields[f["chunks"]].len + bv(1), s_err.ghost["live_max"]), so.fields[f["chunks"]].len + bv(1), s_err.ghost["live_max"])
             ch = so.fields[f["chunks"]]
             s_ok.ghost["live_max"] = z3.If(z3.UGT(ch.len + bv(1), s_ok.ghost["live_max"]), ch.len + bv(1), s_ok.ghost["live_max"])
             ch.len = ch.len + bv(1)
@@ -537,3 +544,104 @@ def h_sorter_insert(ctx, tmax=2 ** 36, frac=4):
         finish(res, m, covers)
         return m
     return run_harness("sorter_insert_step", body)
+
+
+# ------------------------------------------------------------------------------------------------ spill contracts
+def h_spill_contracts(ctx, tmax=2 ** 36):
+    """the counter contracts under which sorter_insert_step uses write_chunk / merge_chunks, discharged against
+    their real MIR in counter-abstraction mode: everything except (create calls, chunks.len(), entries_len,
+    bounds_count, the buffer) is nondeterministic; loops are closed when the abstract state repeats."""
+    def body(res):
+        init = ctx.consts["INITIAL_SORTER_VEC_SIZE"]
+        covers = {"write_chunk-ok": False, "write_chunk-err": False, "merge_chunks-ok": False, "merge_chunks-err": False,
+                  "loop-closed": False}
+        total = {"m": None}
+        for which in ("write_chunk", "merge_chunks"):
+            L, E, B, T, M, c, tot = [z3.BitVec(nm, 64) for nm in "L E B T M c total".split()]
+            R = z3.Bool("R")
+
+            def create(mach, s, args, callee):
+                s.ghost["created"] += 1
+                s.ghost["events"].append(("create", "", ""))
+                return [(s, Opaque("Result<Chunk, Error>"))]
+
+            def noeffect(mach, s, args, callee):
+                # sorting permutes the bound table, iter only reads: neither touches the counters (their own MIR is the subject of C17's harnesses)
+                return [(s, Opaque("sorted / iterator"))]
+            m = ctx.machine(hooks={r"as ChunkCreator>::create$": create, r"^Entries::(par_)?sort_by_key$": noeffect, r"^Entries::iter$": noeffect})
+            m.abstract = True
+            st0 = State()
+            so = build_sorter(ctx, m, st0, bv(0), False, True, False, bv(0), False)[0].ghost["ret"]
+            names = so.names
+            st = State()
+            st.pc += sorter_inv(L, E, B, T, R, M, c, ctx.ES, init, tmax) + [z3.ULE(c, bv(2 ** 32))] + pins(ctx)
+            entries_state(st, L, E, B, ctx, key=("O", "tmp"))
+            ent = st.heap.pop(("O", "tmp"))
+            vals = [{"chunks": VecM(c), "entries": ent, "chunks_total_size": tot, "allow_realloc": R, "dump_threshold": T,
+                     "max_nb_chunks": M}.get(nm, Opaque(nm)) for nm in names]
+            st.heap[("O", "sorter")] = Struct("Sorter", vals, names)
+            ci, ei = names.index("chunks"), names.index("entries")
+            m.tracked = [(("O", "sorter"), (("f", ci),)), (("O", "sorter"), (("f", ei),))]
+
+            def sig_extra(s):
+                so2 = s.heap[("O", "sorter")]
+                e2 = so2.fields[ei]
+                return "%s|%s|%s" % (z3.simplify(so2.fields[ci].len), e2.fields[1], e2.fields[2])
+            m.sig_extra = sig_extra
+
+            def on_end(s, how, which=which):
+                where = "end of Sorter::" + which
+                if how == "panic":
+                    ev = s.ghost["events"][-1]
+                    m.oblige(s, z3.BoolVal(False), "unexpected-panic:" + ev[2][:50], ev[1])
+                    return
+                ret = s.ghost["ret"]
+                so2 = s.heap[("O", "sorter")]
+                ent2 = so2.fields[ei]
+                c2 = so2.fields[ci].len
+                L2, E2, B2, aid = check_ri_post(m, s, ent2, ctx, tmax * 4, where)
+                m.oblige(s, z3.And(L2 == L, z3.BoolVal(aid == "A0")), "contract:buffer-untouched", where)
+                d = z3.simplify(ret.discr)
+                if not z3.is_bv_value(d):
+                    raise Unsupported("return value of %s is not a definite Ok/Err" % which)
+                evs = [e[0] for e in s.ghost["events"]]
+                if d.as_long() == 0:
+                    pushes = evs.count("chunks.push")
+                    if which == "write_chunk" and s.ghost["created"] == 0:
+                        # allowed only as "nothing to spill": no chunk appears and the buffer was already empty
+                        m.oblige(s, z3.And(z3.BoolVal(pushes == 0), c2 == c, E == bv(0), B == bv(0), E2 == bv(0), B2 == bv(0)),
+                                 "contract:write_chunk-without-create-only-when-buffer-empty", where)
+                        covers[which + "-ok"] = True
+                        return
+                    m.oblige(s, z3.BoolVal(s.ghost["created"] == 1 and pushes == 1), "contract:exactly-one-create-and-one-push-per-successful-%s" % which, where)
+                    m.oblige(s, z3.BoolVal(evs.index("create") < evs.index("chunks.push")), "contract:pushed-chunk-comes-from-the-creator", where)
+                    if which == "write_chunk":
+                        m.oblige(s, z3.And(c2 == c + bv(1), E2 == bv(0), B2 == bv(0)), "contract:write_chunk(one chunk pushed, buffer cleared)", where)
+                    else:
+                        m.oblige(s, z3.And(c2 == bv(1), E2 == E, B2 == B), "contract:merge_chunks(one chunk left, buffer untouched)", where)
+                        m.oblige(s, z3.BoolVal("RangeFull" in "".join(e[2] for e in s.ghost["events"] if e[0] == "chunks.drain")),
+                                 "contract:merge drains the whole list", where)
+                    covers[which + "-ok"] = True
+                else:
+                    m.oblige(s, z3.BoolVal(s.ghost["created"] <= 1), "contract:at-most-one-create", where)
+                    m.oblige(s, z3.ULE(c2, c + bv(1)), "contract:error-exit-does-not-add-chunks", where)
+                    covers[which + "-err"] = True
+            m.on_end = on_end
+            m.run(st, ctx.fn("Sorter", which), [Ref(("O", "sorter"), ())])
+            if m.stats.get("loops_closed"):
+                covers["loop-closed"] = True
+            if total["m"] is None:
+                total["m"] = m
+            else:
+                t = total["m"].stats
+                for k_ in ("queries", "obligations", "solver_s", "paths", "pruned"):
+                    t[k_] += m.stats[k_]
+                t["functions"] |= m.stats["functions"]
+                t["unmodelled"] |= m.stats["unmodelled"]
+                for k_, v_ in m.stats["ob_kinds"].items():
+                    t["ob_kinds"][k_] = t["ob_kinds"].get(k_, 0) + v_
+        res["bounds"] = ("counter abstraction of write_chunk and merge_chunks: every value except create calls, chunks.len(), entries_len, bounds_count and the buffer is "
+                         "nondeterministic (both outcomes of every Result / Option / comparison), loops closed by abstract-state fixpoint; chunks.len() <= 2^32")
+        finish(res, total["m"], covers)
+        return total["m"]
+    return run_harness("sorter_spill_contracts", body)
